@@ -1,9 +1,13 @@
 """Symbolic value wrappers and the small static type language of pyvc."""
 from __future__ import annotations
 
-import z3
+try:  # the type vocabulary below is also imported by the native harness (/venv python has no z3)
+    import z3
 
-from . import smt
+    from . import smt
+except ImportError:  # pragma: no cover
+    z3 = None
+    smt = None
 
 # ---- static types (guide the encoding; every V-term also has dynamic tags) -----------------
 ANY = ("any",)
